@@ -34,7 +34,8 @@ def rg_setup(ctx):
     kw_mask = ctx.choose(2 ** n, "keyword-names")
     kws = [Rec("keyword", attrs={"arg": f"p{i}"}) for i in range(n) if kw_mask >> i & 1]
     if ctx.choose(2, "double-star") == 1:
-        kws.append(Rec("keyword", attrs={"arg": None}))
+        # `f(a=1, **kw)` and `f(**kw, a=1)` are the same call: the unpacking may stand anywhere among the keywords
+        kws.insert(ctx.choose(len(kws) + 1, "double-star-position"), Rec("keyword", attrs={"arg": None}))
     node = Rec("Call", attrs={"args": args, "keywords": kws})
     removed = set() if ctx.choose(2, "removed_params-given") == 1 else None
     removed_rec = None
@@ -324,12 +325,18 @@ def gmp_setup(ctx):
     # which classes define the method themselves (others inherit it from the next definer, at the end from object)
     defines = [ctx.choose(2, f"K{i}-defines-the-method") == 1 for i in range(4)]
     method_is_init = ctx.choose(2, "method") == 0
+    # the list is the MRO of the class being resolved; a class that does not define the method inherits it along *its own* bases, which are
+    # a sub-sequence of the classes after it (multiple inheritance: not necessarily the very next class of this list)
     meths = [None] * 4
-    nxt = obj_init if method_is_init else None
+    inherits = {}
     for i in reversed(range(4)):
         if defines[i]:
-            nxt = Rec(f"K{i}.method")
-        meths[i] = nxt
+            meths[i] = Rec(f"K{i}.method")
+        else:
+            later = [j for j in range(i + 1, 4) if defines[j]]
+            pick = ctx.choose(len(later) + 1, f"K{i}-inherits-it-from") if later else 0
+            inherits[i] = later[pick] if pick < len(later) else None
+            meths[i] = meths[later[pick]] if pick < len(later) else (obj_init if method_is_init else None)
     mname = "__init__" if method_is_init else "setup"
     for c, m in zip(classes, meths):
         if m is not None:
@@ -345,12 +352,12 @@ def gmp_setup(ctx):
     logger = Rec("logger")
     consts = {"current_mro": cur.rec(), "object": Rec("class object", attrs={"__init__": obj_init})}
     return Setup(env={"method_name": mname, "get_parameters_fn": Fn(get_parameters_fn, "get_parameters_fn"), "logger": logger}, consts=consts,
-                 data=dict(classes=classes, idx=idx, defines=defines, meths=meths, cur=cur, params=params, logger=logger, method_is_init=method_is_init))
+                 data=dict(classes=classes, idx=idx, defines=defines, meths=meths, cur=cur, params=params, logger=logger, method_is_init=method_is_init, inherits=inherits))
 
 
 def gmp_post(ctx, st, result):
     d = st.data
-    tag = f"[cursor:{d['idx']},definers:{[i for i in range(4) if d['defines'][i]]},{'__init__' if d['method_is_init'] else 'other method'}]"
+    tag = f"[cursor:{d['idx']},definers:{[i for i in range(4) if d['defines'][i]]},inherited-from:{d['inherits']},{'__init__' if d['method_is_init'] else 'other method'}]"
     nxt = next((i for i in range(d["idx"] + 1, 4) if d["defines"][i]), None)
     ev = [e for e in ctx.events if e[0] == "get-parameters"]
     if nxt is None:
@@ -362,7 +369,7 @@ def gmp_post(ctx, st, result):
 
 
 UNITS.append(Unit("C13", "jsonargparse._parameter_resolvers:get_mro_parameters", gmp_setup, gmp_post, never13, max_paths=5000,
-                  trusted=["getattr(cls, name) returns the definition inherited from the nearest definer in the MRO (object's for __init__)"]))
+                  trusted=["getattr(cls, name) returns the class's own definition, else the one of the first definer among its own bases (a sub-sequence of the later classes; object's for __init__)"]))
 
 
 def mc_setup(ctx):
